@@ -1,7 +1,8 @@
 // Class-level model of QMap<QString, V> (DESIGN 2.3 "class-level containers"), installed as a full C++ specialisation
 // BEFORE the qxmpp code that uses the map is compiled.  Value semantics (what implicit sharing implements), fixed
 // capacity CAP, one fixed slot per entry (no shifting, every access at a literal index), lookup by key equality.
-// Not modelled: ordering (keys() returns the keys in slot order, QMap returns them sorted), iterators.
+// Not modelled: ordering (keys() and iteration go in slot order, QMap is sorted by key).
+// Iterators are (map, slot index); end() is index CAP; erase/find/begin/++ act on slots through literal indices.
 // Exceeding the capacity is a MODEL failure (inconclusive), never a silent drop.
 //
 // Every slot ALWAYS holds a live, valid V (a default-constructed one while the slot is unused).  Symbolic execution merges
@@ -54,5 +55,41 @@ public:
         for (int i = 0; i < CAP; i++) { if (used[i] && key[i] == k) { used[i] = false; key[i] = QString(); *val[i] = V(); return 1; } }
         return 0;
     }
+
+    // iterators (added for seed C12-2: a realistic change may use find()/erase() instead of remove())
+    template<typename M, typename R> struct It {
+        M *m; int i;
+        R &operator*() const { return *m->val[i < CAP ? i : 0]; }
+        R *operator->() const { return m->val[i < CAP ? i : 0]; }
+        R &value() const { return *m->val[i < CAP ? i : 0]; }
+        const QString &key() const { return m->key[i < CAP ? i : 0]; }
+        bool operator==(const It &o) const { return i == o.i; }
+        bool operator!=(const It &o) const { return i != o.i; }
+        It &operator++() { int j = CAP; for (int k = CAP - 1; k >= 0; k--) { if (k > i && m->used[k]) j = k; } i = j; return *this; }
+        It operator++(int) { It c = *this; ++*this; return c; }
+        template<typename M2, typename R2> operator It<M2, R2>() const { return It<M2, R2> { m, i }; }
+    };
+    using iterator = It<VpSlotMap, V>;
+    using const_iterator = It<const VpSlotMap, const V>;
+    iterator end() { return iterator { this, CAP }; }
+    const_iterator end() const { return const_iterator { this, CAP }; }
+    const_iterator cend() const { return end(); }
+    const_iterator constEnd() const { return end(); }
+    iterator begin() { iterator it { this, -1 }; ++it; return it; }
+    const_iterator begin() const { const_iterator it { this, -1 }; ++it; return it; }
+    const_iterator cbegin() const { return begin(); }
+    const_iterator constBegin() const { return begin(); }
+    iterator find(const QString &k) { for (int i = 0; i < CAP; i++) { if (used[i] && key[i] == k) return iterator { this, i }; } return end(); }
+    const_iterator find(const QString &k) const { for (int i = 0; i < CAP; i++) { if (used[i] && key[i] == k) return const_iterator { this, i }; } return end(); }
+    const_iterator constFind(const QString &k) const { return find(k); }
+    iterator erase(iterator it)
+    {
+        iterator nx = it; ++nx;
+        for (int i = 0; i < CAP; i++) { if (i == it.i && used[i]) { used[i] = false; key[i] = QString(); *val[i] = V(); } }
+        return nx;
+    }
+    V take(const QString &k) { V r = value(k); remove(k); return r; }
+    QList<V> values() const { QList<V> r; for (int i = 0; i < CAP; i++) { if (used[i]) r.append(*val[i]); } return r; }
+    const QString firstKey() const { for (int i = 0; i < CAP; i++) { if (used[i]) return key[i]; } return QString(); }
     QList<QString> keys() const { QList<QString> r; for (int i = 0; i < CAP; i++) { if (used[i]) r.append(key[i]); } return r; }
 };
